@@ -562,3 +562,43 @@ package tmi
 //@   loop 1 invariant headroom: s.Voting.Version < MAXU32 - 4 && s.NextRound.Version < MAXU32 - 4 && s.Committing.Version < MAXU32 - 4
 //@   loop 1 invariant visited-targets-are-held: forall h string :: {visited(1)[h]} visited(1)[h] ==> (h in vrv.PrevoteProofs)
 //@   loop 1 invariant untouched-targets: (!anyAdded || vrv != addr(s.NextRound)) ==> prevoteTargetsOK(s.NextRound)
+
+// ---- kernel start-up (C10, C07): views reloaded from the stores ----
+//@ iface tmstore.RoundStore.LoadRoundState(st, ctx, height, round)
+//@   modifies nothing
+//@ iface tmstore.ValidatorStore.SavePubKeys(st, ctx, keys)
+//@   modifies nothing
+//@ iface tmstore.ValidatorStore.SaveVotePowers(st, ctx, pows)
+//@   modifies nothing
+
+// A reloaded view is for the requested height and round, over the given validator set, and every persisted vote in it
+// is a verified proof for the right message (C10: "present again and still verifies").
+//@ func Kernel.loadInitialView
+//@   property C10 C05 C07
+//@   requires k.rStore != nil && k.vStore != nil && k.cmspScheme != nil && k.sigScheme != nil
+//@   requires psum(vs.Validators, allbits(), len(vs.Validators)) <= MAXU64
+//@   ensures position: result1 == nil ==> result0.Height == h && result0.Round == r && result0.ValidatorSet == vs
+//@   ensures votes-verified: result1 == nil ==> result0.PrevoteProofs != nil && result0.PrecommitProofs != nil &&
+//@       fullProofsOK(result0.PrevoteProofs, vs.PubKeys) && fullProofsOK(result0.PrecommitProofs, vs.PubKeys) &&
+//@       (forall x string :: {rawdom(result0.PrecommitProofs)[x]} x in result0.PrecommitProofs ==> pmsg(mapvals(result0.PrecommitProofs)[x]) == precommitMsg(h, r, x)) &&
+//@       (forall x string :: {rawdom(result0.PrevoteProofs)[x]} x in result0.PrevoteProofs ==> pmsg(mapvals(result0.PrevoteProofs)[x]) == prevoteMsg(h, r, x))
+//@   ensures summary: result1 == nil ==> result0.VoteSummary.AvailablePower == psum(vs.Validators, allbits(), len(vs.Validators)) &&
+//@       (forall x string :: {rawdom(result0.PrecommitProofs)[x]} x in result0.PrecommitProofs ==> (x in result0.VoteSummary.PrecommitBlockPower) &&
+//@           result0.VoteSummary.PrecommitBlockPower[x] == psum(vs.Validators, pbits(mapvals(result0.PrecommitProofs)[x]), len(vs.Validators)))
+//@   modifies nothing
+
+//@ func Kernel.loadInitialVotingView
+//@   property C07 C10
+//@   requires k.rStore != nil && k.vStore != nil && k.cmspScheme != nil && k.sigScheme != nil
+//@   requires s.Voting.Round < MAXU32 && s.Voting.Version < MAXU32 && s.NextRound.Version < MAXU32 && k.initialHeight < MAXU64
+//@   requires psum(k.initialValSet.Validators, allbits(), len(k.initialValSet.Validators)) <= MAXU64 &&
+//@       psum(s.CommittingHeader.NextValidatorSet.Validators, allbits(), len(s.CommittingHeader.NextValidatorSet.Validators)) <= MAXU64
+//@   panics_if ((s.Voting.Height == k.initialHeight || s.Voting.Height == k.initialHeight + 1) && len(k.initialValSet.Validators) == 0) ||
+//@       (!(s.Voting.Height == k.initialHeight || s.Voting.Height == k.initialHeight + 1) && len(s.CommittingHeader.NextValidatorSet.Validators) == 0)
+//@   ensures voting-validators-are-the-announced-ones: result == nil && !(old(s.Voting.Height) == k.initialHeight || old(s.Voting.Height) == k.initialHeight + 1) ==>
+//@       s.Voting.ValidatorSet == old(s.CommittingHeader.NextValidatorSet) && s.NextRound.ValidatorSet == old(s.CommittingHeader.NextValidatorSet)
+//@   ensures early-heights-use-the-initial-set: result == nil && (old(s.Voting.Height) == k.initialHeight || old(s.Voting.Height) == k.initialHeight + 1) ==>
+//@       s.Voting.ValidatorSet == k.initialValSet && s.NextRound.ValidatorSet == k.initialValSet
+//@   ensures position-kept: result == nil ==> s.Voting.Height == old(s.Voting.Height) && s.Voting.Round == old(s.Voting.Round) &&
+//@       s.NextRound.Height == s.Voting.Height && s.NextRound.Round == s.Voting.Round + 1
+//@   modifies memory except Kernel
